@@ -1,4 +1,4 @@
 From Coq Require Import Extraction ExtrOcamlBasic.
-From PV Require Import Lib.ExtractBase Model.StartLoop Model.StartAsync.
+From PV Require Import Lib.ExtractBase Model.StartLoop Model.StartAsync Model.StartWaiter.
 Extraction Language OCaml.
-Extraction "extracted/C12_model.ml" xb_types sinit sstep srun drive creations started_by released_by istep_tokens istep_spec istep_levels new_instance_step flatten ainit astep arun adrive live_ids quiescent.
+Extraction "extracted/C12_model.ml" xb_types sinit sstep srun drive creations started_by released_by istep_tokens istep_spec istep_levels new_instance_step flatten ainit astep arun adrive live_ids quiescent wlinit wlstep wldrive not_ahead_b.
